@@ -15,7 +15,7 @@ Not decided: floating-point rounding; that routers produce weights summing to on
 """
 import itertools
 
-from ..interp import Interp, World, Obj, PyVec, Poly, ThrowEx, NOT_HANDLED, ElemRef, Sym
+from ..interp import Interp, World, Obj, PyVec, Poly, ThrowEx, NOT_HANDLED, ElemRef, Sym, explore
 from ..effects import Effects, fields_of
 from ..sir import pp, strip, walk, calls, AnalysisBroken
 from .. import model
@@ -47,6 +47,11 @@ class AccWorld(World):
 
     def sym_binop(self, op, a, b):
         raise AnalysisBroken("accumulate model: stale / unmodelled value in arithmetic: %r %s %r" % (a, op, b))
+
+    def sym_cmp(self, op, a, b):
+        if isinstance(a, Poly) or isinstance(b, Poly):
+            return None         # sources / accumulated values of either sign: undetermined, fork
+        raise AnalysisBroken("accumulate model: comparison %r %s %r" % (a, op, b))
 
     def before_call(self, it, fn, call, callee, frame):
         name = callee.bn.split("::")[-1]
@@ -190,29 +195,43 @@ def run(db, chk):
                     this = Obj(model.GRAPH_IMPL, {"m_receivers": R, "m_receivers_count": C,
                                                    "m_receivers_weight": Wt, "m_grid": Sym("grid", "g"),
                                                    "m_dfs_indices": PyVec(order)})
-                    w = AccWorld(order, scalar)
-                    it = Interp(w)
-                    acc = AccArray()
-                    acc[0] = Poly.sym("garbage")      # the caller's array is not clean
+                    # sources (hence accumulated values) may have any sign: a comparison of a symbolic
+                    # value forks, and every outcome must satisfy the recurrence
+                    outcomes = []
+
+                    def run_once(dec, this=this, order=order):
+                        w = AccWorld(order, scalar)
+                        it = Interp(w, dec)
+                        acc = AccArray()
+                        acc[0] = Poly.sym("garbage")      # the caller's array is not clean
+                        th = Obj(model.GRAPH_IMPL, dict(this.fields))
+                        try:
+                            it.call_fn(fn, th, [acc, Poly.sym("s") if scalar else Sym("srcarray", "src")])
+                            return it, (acc, None)
+                        except ThrowEx as ex:
+                            return it, (acc, "threw %s" % ex.text[:60])
+                    for made, res in explore(run_once, max_paths=256):
+                        outcomes.append((made, res))
                     bad = []
-                    try:
-                        it.call_fn(fn, this, [acc, Poly.sym("s") if scalar else Sym("srcarray", "src")])
-                    except ThrowEx as ex:
-                        bad.append("threw %s" % ex.text[:60])
-                    if not bad:
-                        want = {}
-                        for i in reversed(order):
-                            s = Poly.sym("s") if scalar else Poly.sym("s%d" % i)
-                            v = Poly.sym("a%d" % i) * s
-                            for d in order:
-                                if g[d] != ("root",) and i in g[d]:
-                                    v = v + Poly.sym("w%d_%d" % (d, i)) * want[d]
-                            want[i] = v
-                        for i in order:
-                            got = acc.get(i, acc.filled)
-                            if not (isinstance(got, Poly) and got == want[i]) and not (want[i] == got):
-                                bad.append("acc[%d] = %r, recurrence gives %r" % (i, got, want[i]))
-                                break
+                    for made, (acc, err) in outcomes:
+                      if err:
+                        bad.append(err)
+                      if not bad:
+                          want = {}
+                          for i in reversed(order):
+                              s = Poly.sym("s") if scalar else Poly.sym("s%d" % i)
+                              v = Poly.sym("a%d" % i) * s
+                              for d in order:
+                                  if g[d] != ("root",) and i in g[d]:
+                                      v = v + Poly.sym("w%d_%d" % (d, i)) * want[d]
+                              want[i] = v
+                          for i in order:
+                              got = acc.get(i, acc.filled)
+                              if not (isinstance(got, Poly) and got == want[i]) and not (want[i] == got):
+                                  bad.append("acc[%d] = %r, recurrence gives %r%s" % (
+                                    i, got, want[i], " (on the outcome where a sign test of an accumulated value "
+                                    "went one way: %r)" % (made,) if made else ""))
+                                  break
                     if bad:
                         nbad += 1
                     if not bad or nbad <= 5:
@@ -233,4 +252,7 @@ def run(db, chk):
     chk.absorb(db, "C05", {"C05-M1", "C05-M2", "C05-M3"}, "C03-R6", "multiple-direction routing leaves, at every "
                "update, a receiver count and partition weights normalised by one complete, finite, non-zero "
                "sum (shared with C05-M1..M3), so that accumulation conserves the source", min_instances=100)
+    chk.absorb(db, "C16", {"C16-T1"}, "C03-R7", "graph snapshots carry the complete receiver tables (all columns of "
+               "receivers, counts and partition weights; shared with C16-T1): accumulation on a snapshot conserves "
+               "the source", pred=lambda o: "m_receivers" in o["instance"], min_instances=3)
     chk.count_scenarios(n_sc, True)
